@@ -61,7 +61,7 @@ def gen_history(rnd, sid, nedges, nsteps, feat=None, faults=0.0, wf_reads=True, 
         ne = [e for e in g.edges if not e.phony]
         if r < 0.35:
             sname = rnd.choice(sorted(h.sources))
-            h.edit(sname, '%s.%d' % (sname, rnd.randrange(1000000)))
+            h.edit(sname, 'common' if rnd.random() < 0.15 else '%s.%d' % (sname, rnd.randrange(1000000)))
         elif r < 0.45:
             sname = rnd.choice(sorted(h.sources)); h.add(Step('touch', 'step touch %s' % hx(sname), path=sname))
         elif r < 0.6 and ne:
@@ -199,6 +199,14 @@ def oracle_c05(h, st, b, prev_b):
                 for o in (g.eff_outs(e) if e else []):
                     if not ok_again and b.log.get(o) != b.pre_log.get(o): bad.append('build log entry of %s changed by a FAILED command' % o)
                     if not ok_again and b.deps.get(o) != b.pre_deps.get(o): bad.append('deps log entry of %s changed by a FAILED command' % o)
+    # keep going: with budget left, everything wanted that does not depend on a failed command was started
+    if failed and b.exit != 130 and (k == 0 or nfail < k):
+        for o0, kv in b.snap.items():
+            e = prod.get(o0)
+            if e is None or e.phony or kv.get('want') not in ('s', 'f'): continue
+            if o0 in b.started or e.idx in blocked: continue
+            if any(ev[0] == 'st' and ev[1] == 'removed' and engine.uh(ev[2]) == o0 for ev in b.events): continue
+            bad.append('%s is wanted, independent of the failed commands and the failure budget (-k %d, %d failed) was not used up, but it was never started' % (o0, k, nfail))
     # every started command is reaped
     st_set = collections.Counter(b.started); fin_set = collections.Counter(o for o, c in b.finished)
     if b.exit != 130 and st_set != fin_set: bad.append('started %s but finished %s' % (dict(st_set), dict(fin_set)))
